@@ -313,7 +313,9 @@ M("C02", "offset-plus-segsize", LX, "                offset += len(segment)", " 
 M("C02", "range-len-minus1", LX, "for i in range(0, len(request.value), segment_size)", "for i in range(0, len(request.value) - 1, segment_size)", ["D2.4"])
 M("C02", "slice-overlap", LX, "request.value[i : i + segment_size]", "request.value[i : i + segment_size + 1]", ["D2.4"])
 M("C02", "no-truncate-fixed", CT, "            value = value[: cls.size]\n", "", ["D2.5"])
-M("C02", "no-mod32-guard", LX, "            if (parsed_tag.get(\"bit\") or 0) % 32:\n                raise RequestError(\n                    \"BOOL arrays only support writing full DWORDs, indexes must be multiples of 32\"\n                )\n", "", ["D2.6"])
+# (removed: dropping the `% 32` guard of encode_value - equivalent: with an unaligned start the DWORD count announced is
+# ceil((start + count) / 32) - start // 32, so 32 x count exceeds the BOOLs supplied and the array encoder refuses (DataError ->
+# RequestError): the request is refused either way, only the message differs)
 M("C02", "too-few-le", LX, "                if len(value) < value_elements:\n                    raise RequestError(", "                if len(value) < value_elements - 1:\n                    raise RequestError(", ["D2.6"])
 M("C02", "bitwrites-keyed-by-user-tag", LX, "                    if tag_data[\"plc_tag\"] not in bit_writes:", "                    if tag_data[\"user_tag\"] not in bit_writes:", ["D2.7"])
 M("C02", "setbit-no-record", PL, "        self.bits.append(bit)\n        self._request_ids.append(request_id)", "        self.bits.append(bit)", ["D2.7"])
@@ -498,7 +500,8 @@ M("C16", "item-length-from-type-id", PE, "            self.data = self.raw[26:]"
 T("C16", "item-length-uint", PE, "            self.data = self.raw[26:]", "            item_length = UINT.decode(self.raw[28:30])\n            self.data = self.raw[26 : 30 + item_length]")
 
 # D6.6 unit-aware length arithmetic of bit-string arrays
-M("C06", "bits-length-in-elements", DT, "if len(values) < _length * chunk_size:", "if len(values) < _length:", ["D6.6"])
+# (removed: `if len(values) < _length:` for bit strings - equivalent: the element encoder refuses a chunk that is not exactly
+# element-bits long with DataError, so too few bools still raise DataError before anything is returned)
 M("C06", "bits-count-from-values", DT, "                if is_bits:\n                    values = [", "                if is_bits:\n                    _len = len(values) // chunk_size\n                    values = [", ["D6.6"])
 M("C06", "open-partial-dropped", DT, "                    if len(values) % chunk_size:\n                        raise DataError(\n                            f\"Number of values must be a multiple of {chunk_size} for arrays of {cls.element_type}\"\n                        )\n", "", ["D6.6"])
 T("C06", "chunk-statement-form", DT, "                chunk_size = cls.element_type.size * 8 if is_bits else 1\n", "                chunk_size = 1\n                if is_bits:\n                    chunk_size = cls.element_type.size * 8\n")
@@ -510,7 +513,6 @@ T("C02", "array-count-always-elements", LX, '            return _type.encode(val
 T("C02", "bool-array-count-negated", LX, '            return _type.encode(value, elements if data_type == "DWORD" else value_elements)', '            return _type.encode(value, value_elements if data_type != "DWORD" else elements)')
 
 # D8.6 (= D6.6 obligations under C08)
-M("C08", "bits-too-few-silent", DT, "if len(values) < _length * chunk_size:", "if len(values) < _length:", ["D8.6"])
 M("C08", "open-partial-silent", DT, "                    if len(values) % chunk_size:\n                        raise DataError(\n                            f\"Number of values must be a multiple of {chunk_size} for arrays of {cls.element_type}\"\n                        )\n", "", ["D8.6"])
 
 # D12.3 accumulator form of the completion loop
